@@ -288,6 +288,16 @@ func (x *Exec) mergeStates(conds []string, sts []*State) *State {
 			gkeys[k] = true
 		}
 	}
+	// the callback log exists in every state (initial arrays where a path has not touched it)
+	for k := range gkeys {
+		if strings.HasPrefix(k, "log:") {
+			for _, s := range sts {
+				if _, ok := s.gvars[k]; !ok {
+					s.gvars[k] = x.logVal(s, k, "")
+				}
+			}
+		}
+	}
 	for k := range gkeys {
 		var v Val
 		have := false
